@@ -150,11 +150,11 @@ func (n *node) code() string {
 	var sb strings.Builder
 	sb.WriteString(`{ "scratch/rt".Record("` + n.tag)
 	for range n.refs {
-		sb.WriteString(" %v")
+		sb.WriteString(" %T:%v")
 	}
 	sb.WriteString(`"`)
 	for _, r := range n.refs {
-		sb.WriteString(", " + r.Text)
+		sb.WriteString(", " + r.Text + ", " + r.Text)
 	}
 	sb.WriteString(")")
 	if n.end {
@@ -542,18 +542,47 @@ func place(prefix string, e []entry, sp []int) (string, []entry, int, int) {
 		}
 	}
 	sb.WriteByte(' ')
+	// An empty list is reduced from nothing: the generated parser places it at the next token
+	// (go_parser.go.tmpl: entry.sym.offset, entry.sym.endoffset = p.next.offset, p.next.offset),
+	// i.e. at the start of the following token or, without one, at the end-of-input token, which
+	// follows the trailing blank.
+	next := sb.Len()
+	for i := len(out) - 1; i >= 0; i-- {
+		if out[i].empty {
+			out[i].start, out[i].end = next, next
+		} else if out[i].start >= 0 {
+			next = out[i].start
+		}
+	}
 	return sb.String(), out, rs, re
 }
 
 const wild = "*"
 
-// value of a present symbol occurrence: terminals carry 100+start offset (set by the lexer
-// action), P carries 200 + value of its first token.
+// termType: terminals alternate between {int} (value 100+start offset) and {string} (value
+// "s<start offset>"), so that neighbouring symbols -- in particular the alternatives of a choice
+// that share an alias -- have different types; P is {float64}.
+func termType(t string) string {
+	if t == "tp" {
+		return "int" // P computes its value from it
+	}
+	if (t[1]-'a')%2 == 1 {
+		return "string"
+	}
+	return "int"
+}
+
+// symValue is what a value reference to a present symbol must print with %T:%v: terminals carry a
+// function of their start offset (set by the lexer action), P carries 200.5 + the value of its
+// first token.
 func symValue(n *node, start int) string {
 	if n.sym == "P" {
-		return fmt.Sprint(300 + start)
+		return fmt.Sprintf("float64:%d.5", 300+start)
 	}
-	return fmt.Sprint(100 + start)
+	if termType(n.sym) == "string" {
+		return fmt.Sprintf("string:s%d", start)
+	}
+	return fmt.Sprintf("int:%d", 100+start)
 }
 
 // expect computes the record an action must produce in a placed expansion; idx is the index of
@@ -570,9 +599,9 @@ func (r *rule) expect(e []entry, idx int) ([]string, []string) {
 	emit := func(v, p string) { vals = append(vals, v); pres = append(pres, p) }
 	absent := func(prop int) {
 		if prop == 0 {
-			emit("<nil>", "absent")
+			emit("<nil>:<nil>", "absent")
 		} else {
-			emit("-1", "absent")
+			emit("int:-1", "absent")
 		}
 	}
 	for _, rf := range a.refs {
@@ -592,17 +621,9 @@ func (r *rule) expect(e []entry, idx int) ([]string, []string) {
 			case 0:
 				emit(symValue(r.posOf[active[0].pos], active[0].start), "present")
 			case 1:
-				if active[0].empty {
-					emit(wild, "") // position of an empty list: not specified
-				} else {
-					emit(fmt.Sprint(active[0].start), "present")
-				}
+				emit(fmt.Sprintf("int:%d", active[0].start), "present")
 			case 2:
-				if active[len(active)-1].empty {
-					emit(wild, "")
-				} else {
-					emit(fmt.Sprint(active[len(active)-1].end), "present")
-				}
+				emit(fmt.Sprintf("int:%d", active[len(active)-1].end), "present")
 			}
 		case 2, 3:
 			if idx == 0 {
@@ -613,14 +634,14 @@ func (r *rule) expect(e []entry, idx int) ([]string, []string) {
 			if rf.sel == 3 {
 				en = &e[idx-1]
 			}
-			// first()/last() landing on an empty helper symbol (extracted action, lookahead,
-			// empty list) is not specified: left out
-			if en.pos == 0 || en.empty {
+			// first()/last() landing on a helper symbol (extracted action, lookahead) is not
+			// specified: left out
+			if en.pos == 0 {
 				emit(wild, "")
 			} else if rf.prop == 1 {
-				emit(fmt.Sprint(en.start), "present")
+				emit(fmt.Sprintf("int:%d", en.start), "present")
 			} else {
-				emit(fmt.Sprint(en.end), "present")
+				emit(fmt.Sprintf("int:%d", en.end), "present")
 			}
 		}
 	}
@@ -692,6 +713,10 @@ var catalogue = []itemDef{
 	}},
 	{"(s?|P)[x]", func(a *alloc) *node {
 		return &node{k: kChoice, alts: [][]*node{{{k: kOpt, alts: [][]*node{{S(a.sym())}}}}, {S("P")}}, alias: a.alias()}
+	}},
+	{"(s separator s)*[x]", func(a *alloc) *node {
+		e := a.sym()
+		return &node{k: kList, elem: []string{e}, sep: a.sym(), star: true, alias: a.alias()}
 	}},
 	{"dup", func(a *alloc) *node {
 		if a.first == "" {
